@@ -242,8 +242,9 @@ protected:
      */
    MUSCLE_NODISCARD ZLibCodec * GetReceiveCodec(int32 encoding) const
    {
-      // For receiving data, any ZLibCodec will do, so we'll just force it to the default codec-level
-      return GetCodec(muscleInRange((int32)encoding, (int32)MUSCLE_MESSAGE_ENCODING_ZLIB_1, (int32)MUSCLE_MESSAGE_ENCODING_ZLIB_9) ? MUSCLE_MESSAGE_ENCODING_ZLIB_6 : encoding, _recvCodec);
+      // Note that we must replace our receive-codec whenever the sender's compression-level changes, because the sender
+      // starts a fresh (dependent) deflate-stream at that point, and our inflater's state has to start fresh along with it.
+      return GetCodec(encoding, _recvCodec);
    }
 #endif
 
